@@ -13,6 +13,7 @@ package main
 import (
 	"encoding/binary"
 	"encoding/json"
+	"errors"
 	"flag"
 	"fmt"
 	"iter"
@@ -26,6 +27,7 @@ import (
 	"github.com/NethermindEth/juno/core"
 	"github.com/NethermindEth/juno/core/felt"
 	"github.com/NethermindEth/juno/core/pending"
+	"github.com/NethermindEth/juno/db"
 	"verifharness/chain"
 	"verifharness/hx"
 )
@@ -185,6 +187,9 @@ type realRun struct {
 	l1       *uint64
 	quiet    bool // shrinking: no counters
 	long     bool
+	// an ungraceful restart found a running-filter snapshot on the real disk that the model says was consumed
+	// (InitializeRunningEventFilter deletes the snapshot it reads): the stale-snapshot defect is back
+	snapUnconsumed bool
 }
 
 var preConfNil = func() (blockchain.PreConfirmedReader, error) { return nil, nil }
@@ -283,10 +288,47 @@ func (r *realRun) restart(g bool) {
 		_ = r.node.BC.WriteRunningEventFilter()
 		r.or.Ask("restart g", 1)
 	} else {
+		if r.realSnap() != "none" && r.or.Ask("snap", 1)[0] == "none" {
+			r.snapUnconsumed = true
+		}
 		r.or.Ask("restart u", 1)
 	}
 	r.node = r.node.Reopen(r.newState)
 	r.rpc = nil
+}
+
+// the running-filter snapshot on the real disk: none | <from> <next>
+func (r *realRun) realSnap() string {
+	f, err := core.GetRunningEventFilter(r.node.DB)
+	if err != nil {
+		if errors.Is(err, db.ErrKeyNotFound) {
+			return "none"
+		}
+		return "err:" + err.Error()
+	}
+	from, _ := f.FromBlock()
+	next, _ := f.NextBlock()
+	return fmt.Sprintf("%d %d", from, next)
+}
+
+// after every operation: the snapshot on the real disk is the one on the model's disk (written by a graceful
+// stop, consumed by the first initialisation on a non-empty chain), and the predicate of C09_snapshot_consumed
+// holds on the implementation after an operation that initialised the filter
+func (r *realRun) checkSnap(o *Op, heightChanged bool) {
+	real, model := r.realSnap(), r.or.Ask("snap", 1)[0]
+	if !r.quiet {
+		if real == "none" {
+			r.c.Hist["snapshot-on-disk:none"]++
+		} else {
+			r.c.Hist["snapshot-on-disk:present-after-"+o.K]++
+		}
+	}
+	if real != model {
+		r.fail("model-mismatch:snapshot", fmt.Sprintf("after %s at height %d: snapshot on disk %q, model %q", o.K, len(r.naive), real, model), true)
+	}
+	if heightChanged && real != "none" && real != "0 0" {
+		r.fail("snapshot:not-consumed", fmt.Sprintf("after %s at height %d the running-filter snapshot %q is still on disk although the filter was initialised in this process", o.K, len(r.naive), real), false)
+	}
 }
 
 func (r *realRun) naiveScan(q *Qry) (short []string, full []string) {
@@ -511,7 +553,7 @@ func (r *realRun) classify(q *Qry, cfg pcfg, spec []string, kind string) string 
 			return "stale-cache-after-cross-window-reorg"
 		}
 	}
-	if strings.Contains(hyp, "snapbad=1") {
+	if strings.Contains(hyp, "snapbad=1") || r.snapUnconsumed {
 		return "stale-snapshot-after-reorg+ungraceful-restart"
 	}
 	if strings.Contains(hyp, "stalepers=1") {
@@ -732,7 +774,7 @@ func (r *realRun) sweep(W uint64) {
 
 func (r *realRun) classifyErr() string {
 	hyp := r.or.Ask("hyp", 1)[0]
-	if strings.Contains(hyp, "snapbad=1") {
+	if strings.Contains(hyp, "snapbad=1") || r.snapUnconsumed {
 		return "query-error:stale-snapshot"
 	}
 	if strings.Contains(hyp, "stalepers=1") {
@@ -788,6 +830,7 @@ func runReal(c *hx.Ctx, or *hx.Oracle, h *History, cfgs []pcfg, quiet bool) []vi
 	sendLocations(or, uniAddrs, uniKeys, uniPositions)
 	r := &realRun{c: c, or: or, node: chain.NewNode(nil, h.NewState), newState: h.NewState, quiet: quiet}
 	for _, o := range h.Ops {
+		heightBefore := len(r.naive)
 		switch o.K {
 		case "store":
 			r.store(o.Blk)
@@ -821,6 +864,7 @@ func runReal(c *hx.Ctx, or *hx.Oracle, h *History, cfgs []pcfg, quiet bool) []vi
 				r.l1 = &n
 			}
 		}
+		r.checkSnap(&o, len(r.naive) != heightBefore)
 	}
 	// the naive table must still be what the database holds
 	if n := len(r.naive); n > 0 {
